@@ -6,6 +6,8 @@ import logging
 VERIF = os.path.dirname(os.path.dirname(os.path.abspath(__file__)))
 REPO = os.path.abspath(os.environ.get("SPYNE_UNDER_TEST", "/repo"))
 DEPS = os.path.join(VERIF, ".deps")
+# where evidence/ and replays/ are written (scratch dir for sensitivity runs on mutants)
+OUT = os.path.abspath(os.environ.get("VERIF_OUT_DIR", VERIF))
 
 if REPO in sys.path:
     sys.path.remove(REPO)
